@@ -1,11 +1,13 @@
 #!/bin/bash
 # usage: tools/seeded_eval.sh <seeded dir name> <property id> [more ids]  -- applies the change to /repo, runs the checks, undoes it
 name="$1"; shift
-cd /repo && git apply /verif/seeded/$name/patch.diff || exit 2
-cd /verif
+VERIF=$(cd "$(dirname "$0")/.." && pwd)
+REPO=${RIMU_REPO:-/repo}
+cd $REPO && git apply $VERIF/seeded/$name/patch.diff || exit 2
+cd $VERIF
 for pid in "$@"; do
   out=$(./check $pid --tier quick 2>&1); rc=$?
   out=$(echo "$out" | grep -v NOT-CHECKED)
   echo "[$name] $pid exit=$rc :: $(echo "$out" | grep -E 'VIOLATION|KNOWN' | head -3 | tr '\n' ' ') :: $(echo "$out" | tail -1)"
 done
-git -C /repo checkout -- . 
+git -C $REPO checkout -- . 
